@@ -29,7 +29,7 @@
    C18_table_consistent, C18_poll_reports, C18_new_slot_silent), and the two refutations of
    the pinned behaviour.  Implementation = model is tested (correspondence), not proved. *)
 From Coq Require Import ZArith List.
-From Tickit Require Import LoopDefs LoopSigDefs LoopSigProofs LoopSigIO LoopSigSpec LoopSigRefine LoopSigSlots LoopPipeDefs LoopPipeProofs.
+From Tickit Require Import LoopDefs LoopSigDefs LoopSigProofs LoopSigIO LoopSigSpec LoopSigRefine LoopSigSlots LoopPipeDefs LoopPipeProofs LoopPipeSnap LoopPipeRefine.
 Import ListNotations.
 Local Open Scope Z_scope.
 
@@ -265,6 +265,25 @@ Print Assumptions C18_fallback_refuted_drain_late.
 (* non-vacuity: the same two scripts on the repaired loop -- the signal watcher is invoked in
    the first iteration although the deferred callback cleared errno; the new IO watch is not
    invoked for the old descriptor's readiness *)
+(* the fallback model refines ITS snapshot specification (LoopPipeSnap.yspec_run: no cursor, no
+   running batch; the deferred callbacks and the signal watches of a dispatch are snapshots of
+   identities, each still live at its turn; a raise is recorded at once wherever it happens and
+   is dispatched by the next consumed wakeup): log equality for every callback environment and
+   every fallback script, no hypothesis; the model never takes a "cannot happen" branch *)
+Theorem C18_fallback_refines : forall env ops,
+  exists f0, forall fuel, (f0 <= fuel)%nat -> f_run false env fuel ops = Some (yspec_run env ops).
+Proof. exact fallback_refines. Qed.
+Print Assumptions C18_fallback_refines.
+
+Theorem C18_fallback_refines_witness :
+  f_run false wy_env 100 wy_ops = Some (yspec_run wy_env wy_ops) /\
+  yspec_run wy_env wy_ops =
+    [OPoll 0; OEv (mkE 0 KSig 1 1 0 10); OEv (mkE 1 KSig 1 1 0 12);
+     OPoll 0; OEv (mkE 0 KSig 1 2 0 10); OEv (mkE 2 KSig 1 2 0 10);
+     OPoll 0; OEv (mkE 0 KSig 1 3 0 10); OEv (mkE 2 KSig 1 3 0 10); OEv (mkE 3 KSig 1 3 0 10)].
+Proof. exact fallback_refines_witness. Qed.
+Print Assumptions C18_fallback_refines_witness.
+
 Example C18_nonvacuous :
   srun fixed_cfg w24_env 100 w24_ops =
     Some [OPoll 0; OEv (mkE 1 KLater 3 1 0 0); OEv (mkE 0 KSig 1 1 0 10); OPoll 0; OPoll 0] /\
